@@ -26,6 +26,22 @@ type Op struct {
 	// read / delete
 	A int64 `json:"a,omitempty"`
 	B int64 `json:"b,omitempty"`
+	// side-channel operations (xcreate xwrite xrename xdelete): channels outside the model's
+	// index groups whose only purpose is to be created, renamed and deleted while the script
+	// runs. Key is the channel, XKind its kind (index | virtual | data: a data channel of the
+	// first index channel), Name the (new) name, Keys the batch of an xdelete.
+	Key   uint32   `json:"key,omitempty"`
+	XKind string   `json:"xkind,omitempty"`
+	Name  string   `json:"name,omitempty"`
+	Keys  []uint32 `json:"keys,omitempty"`
+}
+
+// SideChan is the expected state of a side channel.
+type SideChan struct {
+	Exists bool    `json:"exists"`
+	Kind   string  `json:"kind"`
+	Name   string  `json:"name"`
+	TS     []int64 `json:"ts,omitempty"` // committed samples (index kind only)
 }
 
 // Script is a complete case.
@@ -53,6 +69,9 @@ type GenOpts struct {
 	MaxWrite int
 	// SmallTime keeps timestamps within a small range (crash enumeration, iterators).
 	SmallTime bool
+	// SideChannels adds create / write / rename / delete operations on channels outside the
+	// model's index groups.
+	SideChannels bool
 }
 
 // WState is the generator/executor-side view of an open writer.
@@ -81,10 +100,44 @@ type State struct {
 	M       *tsm.Model
 	Writers map[int]*WState
 	NextW   int
+	Side    map[uint32]*SideChan
 }
 
 func NewState(specs []tsm.ChannelSpec) *State {
-	return &State{M: tsm.New(specs), Writers: map[int]*WState{}}
+	return &State{M: tsm.New(specs), Writers: map[int]*WState{}, Side: map[uint32]*SideChan{}}
+}
+
+// ApplySide applies a side-channel operation to the expected state.
+func (s *State) ApplySide(op Op) {
+	switch op.Kind {
+	case "xcreate":
+		s.Side[op.Key] = &SideChan{Exists: true, Kind: op.XKind, Name: op.Name}
+	case "xwrite":
+		if c := s.Side[op.Key]; c != nil {
+			c.TS = append(c.TS, op.TS...)
+		}
+	case "xrename":
+		if c := s.Side[op.Key]; c != nil {
+			c.Name = op.Name
+		}
+	case "xdelete":
+		for _, k := range op.Keys {
+			if c := s.Side[k]; c != nil {
+				c.Exists = false
+				c.TS = nil
+			}
+		}
+	}
+}
+
+// SideKeys returns the side channel keys in ascending order.
+func (s *State) SideKeys() []uint32 {
+	ks := make([]uint32, 0, len(s.Side))
+	for k := range s.Side {
+		ks = append(ks, k)
+	}
+	sort.Slice(ks, func(i, j int) bool { return ks[i] < ks[j] })
+	return ks
 }
 
 func (s *State) groupBusy(idx uint32) bool {
@@ -292,6 +345,9 @@ func Gen(t *rapid.T, o GenOpts) Script {
 		if o.GC {
 			choices = append(choices, "gc")
 		}
+		if o.SideChannels {
+			choices = append(choices, "side", "side")
+		}
 		kind := rapid.SampledFrom(choices).Draw(t, "kind")
 		switch kind {
 		case "open":
@@ -347,6 +403,11 @@ func Gen(t *rapid.T, o GenOpts) Script {
 			sc.Ops = append(sc.Ops, Op{Kind: "close", W: id})
 		case "reopen":
 			sc.Ops = append(sc.Ops, Op{Kind: "reopen"})
+		case "side":
+			if op, ok := genSide(t, st, indexes); ok {
+				st.ApplySide(op)
+				sc.Ops = append(sc.Ops, op)
+			}
 		case "gc":
 			sc.Ops = append(sc.Ops, Op{Kind: "gc"})
 		case "read":
@@ -377,6 +438,66 @@ func Gen(t *rapid.T, o GenOpts) Script {
 		sc.Ops = append(sc.Ops, Op{Kind: "close", W: id})
 	}
 	return sc
+}
+
+// genSide draws the next operation on a side channel: create a new one, or write to, rename
+// or delete existing ones (deletes take one key or a batch mixing kinds).
+func genSide(t *rapid.T, st *State, indexes []uint32) (Op, bool) {
+	var live []uint32
+	for _, k := range st.SideKeys() {
+		if st.Side[k].Exists {
+			live = append(live, k)
+		}
+	}
+	choices := []string{"xcreate"}
+	if len(st.Side) >= 4 {
+		choices = nil
+	}
+	if len(live) > 0 {
+		choices = append(choices, "xrename", "xdelete", "xdelete", "xwrite")
+	}
+	if len(choices) == 0 {
+		return Op{}, false
+	}
+	switch kind := rapid.SampledFrom(choices).Draw(t, "side-kind"); kind {
+	case "xcreate":
+		key := uint32(900 + len(st.Side))
+		kinds := []string{"index", "index", "virtual"}
+		if len(indexes) > 0 {
+			kinds = append(kinds, "data")
+		}
+		return Op{Kind: "xcreate", Key: key, XKind: rapid.SampledFrom(kinds).Draw(t, "side-xkind"), Name: "side" + string(rune('a'+len(st.Side)))}, true
+	case "xwrite":
+		var idx []uint32
+		for _, k := range live {
+			if st.Side[k].Kind == "index" {
+				idx = append(idx, k)
+			}
+		}
+		if len(idx) == 0 {
+			return Op{}, false
+		}
+		key := rapid.SampledFrom(idx).Draw(t, "side-wkey")
+		last := int64(0)
+		if n := len(st.Side[key].TS); n > 0 {
+			last = st.Side[key].TS[n-1]
+		}
+		op := Op{Kind: "xwrite", Key: key, Start: last + 1}
+		for i, n := 0, rapid.IntRange(1, 6).Draw(t, "side-n"); i < n; i++ {
+			op.TS = append(op.TS, last+1+int64(i))
+		}
+		return op, true
+	case "xrename":
+		key := rapid.SampledFrom(live).Draw(t, "side-rkey")
+		return Op{Kind: "xrename", Key: key, Name: st.Side[key].Name + "x"}, true
+	default:
+		n := 1
+		if len(live) > 1 && rapid.Bool().Draw(t, "side-batch") {
+			n = rapid.IntRange(2, len(live)).Draw(t, "side-batch-n")
+		}
+		perm := rapid.Permutation(live).Draw(t, "side-dkeys")
+		return Op{Kind: "xdelete", Keys: append([]uint32(nil), perm[:n]...)}, true
+	}
 }
 
 func pickWriter(t *rapid.T, st *State) int {
